@@ -9,7 +9,7 @@ From Martian Require Import Lib.Bytes.
 Inductive lock_event :=
 | LCheck (i : N)      (* instance i: metadata.exists(_lock) *)
 | LWrite (i : N)      (* instance i: metadata.WriteTime(_lock), only after a check that saw no lock *)
-| LUnlock (i : N)     (* instance i: metadata.remove(_lock), only while it holds the pipestance *)
+| LUnlock (i : N)     (* instance i: metadata.remove(_lock) *)
 | LAttachRO (i : N).  (* instance i attaches read-only (--inspect / mrstat) *)
 
 Record lock_state := mk_lock {
@@ -36,9 +36,10 @@ Definition lock_step (s : lock_state) (e : lock_event) : lock_state :=
       then mk_lock true (remove_n i (saw_free s)) (i :: holders s) (refused s) (readers s)
       else s
   | LUnlock i =>
-      if mem i (holders s)
-      then mk_lock false (saw_free s) (remove_n i (holders s)) (refused s) (readers s)
-      else s
+      (* the file system removes the file whoever asks: that only a holder
+         ever unlocks is a property of the callers of Pipestance.Unlock, not
+         of the lock *)
+      mk_lock false (saw_free s) (remove_n i (holders s)) (refused s) (readers s)
   | LAttachRO i => mk_lock (lock_file s) (saw_free s) (holders s) (refused s) (i :: readers s)
   end.
 
